@@ -158,6 +158,12 @@ class ExprMixin:
 
     # ------------------------------------------------------------------ dispatcher
     def eval(self, node, env: Env, path, merge=False):
+        ec = getattr(self, "expr_contracts", None)
+        if ec and isinstance(node, (ast.SetComp, ast.ListComp, ast.DictComp, ast.GeneratorExp, ast.Call)):
+            # an expression taken by contract: only if it is, textually, the expression the contract was written for
+            h = ec.get(ast.unparse(node))
+            if h is not None:
+                return h(self, env, path)
         m = getattr(self, "e_" + node.__class__.__name__, None)
         if m is None:
             raise Unsupported(f"expression {node.__class__.__name__} at line {getattr(node, 'lineno', '?')}")
